@@ -337,6 +337,9 @@ func GenValid(t *verifsim.Tape, d *spec.Design, a *spec.Attr, o GenOpts) any {
 		if v0.MaxLength != nil {
 			hi = *v0.MaxLength
 		}
+		if o.NonEmpty && lo == 0 && hi > 0 {
+			lo = 1 // an empty map cannot be told from no parameter at all outside a body
+		}
 		n := lo + t.Draw("mlen", hi-lo+1)
 		mv := &MapVal{}
 		eo := o
